@@ -182,9 +182,10 @@ func runC07c(rc *RunCtx, race bool) {
 					}
 				}
 				m := minCap(prev.inv, c.ret)
-				if m > 0 && between <= m {
+				// prev is among the most recent m checks iff fewer than m others lie between
+				if m > 0 && between < m {
 					rc.Probe("replay_within_window")
-					if between == m {
+					if between == m-1 {
 						rc.Probe("replay_exactly_at_window_edge")
 					}
 					if c.res {
